@@ -61,7 +61,10 @@ pub(crate) fn parse(range: Option<&HeaderValue>, len: u64) -> ResolvedRanges {
                 Err(_) => return ResolvedRanges::None, // unparseable
                 Ok(l) => l,
             };
-            if last >= len {
+            // A suffix-length longer than the entity selects the whole entity; only a
+            // suffix-length of zero (or an empty entity) is unsatisfiable.
+            let last = cmp::min(last, len);
+            if last == 0 {
                 continue; // this range is not satisfiable; skip.
             }
             ranges.push((len - last)..len);
